@@ -271,15 +271,15 @@ Proof.
   destruct (seg_rel d) as [rel|]; [|destruct (_ && _); [apply Hfail | exact Hret]].
   intros s Hng. unfold bind at 1. unfold get_root at 1.
   destruct (_ && negb (Ctc.d_overwrite d)); [apply (Hfail FileExistsError s Hng)|].
-  destruct rel as [|x rel].
-  - (* the segmentation target IS the geff path: the root becomes the array *)
-    unfold set_item, bind, setup_group, bind, get_root. destruct s as [root tr]. cbn [s_root s_trace] in *.
-    destruct root as [[y|a ch]|]; cbn.
-    + exists []. split; [reflexivity|]. split; [constructor | reflexivity].
-    + exists [Some (ZA vol)]. split; [reflexivity|]. split; [constructor; [reflexivity | constructor] | reflexivity].
-    + exists [Some (ZA vol); Some empty_group]. split; [reflexivity|].
-      split; [constructor; [reflexivity | constructor; [reflexivity | constructor]] | reflexivity].
-  - apply (attrs_stable_keeps _ (as_set_item (x :: rel) vol ltac:(discriminate)) s Hng).
+  unfold seg_put, bind, get_root. destruct s as [root tr]. cbn [s_root s_trace] in *.
+  destruct (put_path (match root with Some g => g | None => empty_group end) rel (ZA vol)) as [g'|] eqn:Ep; cbn.
+  2:{ exists []. split; [reflexivity|]. split; [constructor | exact Hng]. }
+  assert (Hg' : alookup "geff" (oattrs (Some g')) = None).
+  { destruct rel as [|x rel].
+    - cbn in Ep. inversion Ep; subst. reflexivity.
+    - assert (Hne : x :: rel <> []) by discriminate.
+      cbn [oattrs]. rewrite (put_path_attrs _ _ _ _ Hne Ep). destruct root as [g|]; [exact Hng | reflexivity]. }
+  exists [Some g']. split; [reflexivity|]. split; [constructor; [exact Hg' | constructor] | exact Hg'].
 Qed.
 
 Lemma safe_e_body c : safe_from (e_kind c) (e_body c).
@@ -355,9 +355,9 @@ Proof. rewrite e_run_eq. destruct (e_ready c).
   - cbn. split; [exact I|]. intros _ H. exfalso. apply H. reflexivity. Qed.
 
 (* ---------- the label volume inside the geff directory: the conversion never succeeds ---------- *)
-Lemma set_item_ok_root p vol s s' : set_item p vol s = (s', Ok tt) -> exists n, s_root s' = Some n.
-Proof. unfold set_item, bind. destruct (setup_group s) as [s1 [g|e]]; [|discriminate].
-  destruct (put_path g p (ZA vol)) as [g'|]; [|discriminate]. cbn. intros H. inversion H; subst. eexists. reflexivity. Qed.
+Lemma seg_put_ok_root p vol s s' : seg_put p vol s = (s', Ok tt) -> exists n, s_root s' = Some n.
+Proof. unfold seg_put, bind, get_root.
+  destruct (put_path _ p (ZA vol)) as [g'|]; [|discriminate]. cbn. intros H. inversion H; subst. eexists. reflexivity. Qed.
 
 Theorem ctc_seg_inside_fails d vol s rel :
   seg_rel d = Some rel -> Ctc.seg_requested d = true -> Ctc.d_frames d <> [] ->
@@ -368,7 +368,7 @@ Proof. intros Hrel Hreq Hfr. rewrite ctc_write_eq. destruct (Ctc.d_dir d && _); 
   destruct (Ctc.d_frames d) as [|f fr] eqn:Ef; [contradiction|]. cbn [andb].
   unfold bind at 1. unfold get_root at 1.
   destruct (_ && negb (Ctc.d_overwrite d)); [discriminate|].
-  destruct (set_item rel vol s1) as [s2 [u2|e]] eqn:Es; [|discriminate]. destruct u2.
-  destruct (set_item_ok_root _ _ _ _ Es) as [n Hn].
+  destruct (seg_put rel vol s1) as [s2 [u2|e]] eqn:Es; [|discriminate]. destruct u2.
+  destruct (seg_put_ok_root _ _ _ _ Es) as [n Hn].
   unfold bind, lift. destruct (Ctc.convert d) as [gm|e]; [|discriminate].
   rewrite write_arrays_eq. unfold bind. rewrite (guard_refuse KPath s2); [discriminate|]. rewrite Hn. reflexivity. Qed.
